@@ -455,6 +455,24 @@ func c05GenCall(c *Ctx, t *TDesc, dynamic bool) c05Call {
 				k.num.Mode = NumParse
 			}
 		}
+		if c05LastBound != nil && c.G(5) == 0 {
+			// the number of an earlier bound again, produced another way (another precision, the same decimal): the
+			// same number as far as equality goes, another one bit for bit
+			k.num = *c05LastBound
+			switch c.G(4) {
+			case 0:
+				k.num.Mode = NumParse
+			case 1:
+				k.num.Mode = NumFloat
+			default:
+				k.num.Mode, k.num.Prec = NumPrec, []uint{24, 53, 64, 200}[c.G(4)]
+			}
+			if f := k.num.Float(); f.IsInf() {
+				k.num.Mode = NumParse
+			}
+		}
+		nb := k.num
+		c05LastBound = &nb
 		k.inc = c.G(2) == 0
 		switch c.G(16) {
 		case 14:
@@ -519,7 +537,11 @@ func c05Apply(b *cty.RefinementBuilder, k c05Call) (nb *cty.RefinementBuilder, p
 	return nb, nil
 }
 
+// c05LastBound: the number of the latest numeric bound of the run (see c05GenCall).
+var c05LastBound *NumDesc
+
 func simC05Histories(c *Ctx) {
+	c05LastBound = nil
 	c05OrderOpen = false
 	c.Mute = c05MuteIfOrderOpen
 	// ---- start value
